@@ -535,66 +535,200 @@ Definition position_of (c : ctx) : nat :=                  (* indexOf + 1, 0 whe
   (fix go (l : list nat) (i : nat) : nat :=
      match l with [] => 0 | a :: r => if Nat.eqb a (cx_node c) then S i else go r (S i) end) (cx_list c) 0.
 
+(* predicates and steps, parameterised by the evaluator used for predicate expressions
+   (the interpreter passes itself at smaller fuel) *)
+Section Steps.
+  Variable ev : ctx -> expr -> res value.
+
+  (* which nodes of [l] survive one general predicate (XPath::predicates): [go rest i] looks at the
+     nodes from position i+1 on; a number result is a position test, anything else is converted
+     to boolean *)
+  Fixpoint pred_filter (c : ctx) (l : list nat) (pe : expr) (rest : list nat) (i : nat) : res (list nat) :=
+    match rest with
+    | [] => Ok []
+    | n :: r =>
+        do v <- ev (with_node c n l) pe;
+        let keep :=
+          negb (match v with VNum x => negb (d_eq (d_of_nat (S i)) x) | _ => false end)
+          && to_boolean v in
+        do r' <- pred_filter c l pe r (S i);
+        Ok (if keep then n :: r' else r')
+    end.
+
+  (* one predicate applied to the list [l]; a number literal is answered by indexing *)
+  Definition apply_pred (c : ctx) (l : list nat) (p : bool * expr) : res (list nat) :=
+    match l with
+    | [] => Ok []
+    | _ =>
+      match snd p with
+      | ENumLit t =>
+          match d_index (string_to_number t) (length l) with
+          | Some k => Ok (match nth_error l (k - 1) with Some n => [n] | None => [] end)
+          | None => Ok []
+          end
+      | pe => pred_filter c l pe l 0
+      end
+    end.
+
+  Definition apply_preds (c : ctx) (l : list nat) (ps : list (bool * expr)) : res (list nat) :=
+    fold_left (fun acc p => do l' <- acc; apply_pred c l' p) ps (Ok l).
+
+  (* XPath::step for the remaining steps from each node of [sub] (already filtered) *)
+  Fixpoint steps_from (c : ctx) (sfuel : nat) (sub : list nat) (reverse : bool) (rest : list step) {struct sfuel} : res (list nat) :=
+    match sfuel with
+    | O => Err EFuel
+    | S sf =>
+      match rest with
+      | [] => Ok (if reverse then rev sub else sub)
+      | (ax, t, ps) :: rest' =>
+          fold_left (fun acc n =>
+            do q <- acc;
+            do an <- axis_nodes c ax t n;
+            let (l0, rv) := an in
+            do l1 <- apply_preds c l0 ps;
+            do r <- steps_from c sf l1 rv rest';
+            Ok (merge_doc_order q r)) sub (Ok [])
+      end
+    end.
+End Steps.
+
+(* the core function library (FunctionXXX::execute), parameterised by the evaluator of argument
+   expressions *)
+Section Funcs.
+  Variable ev : ctx -> expr -> res value.
+
+  Definition ev_num (c : ctx) (x : expr) : res dbl :=        (* getNumericOperand / executeMore(double&) *)
+    match x with
+    | ENumLit t => Ok (string_to_number t)
+    | _ => do v <- ev c x; Ok (to_number c v)
+    end.
+  Definition ev_bool (c : ctx) (x : expr) : res bool := do v <- ev c x; Ok (to_boolean v).
+
+  Definition call_function (c : ctx) (name : str) (args : list expr) : res value :=
+      let str_arg (x : expr) : res str := do v <- ev c x; Ok (to_string c v) in
+      let nodes_arg (x : expr) : res (list nat) := do v <- ev c x; as_nodes v in
+      let ctx_or_first (k : ctx -> nat -> str) : res value :=
+        match args with
+        | [] => Ok (VStr (k c (cx_node c)))
+        | [a] => do l <- nodes_arg a; Ok (VStr (match l with [] => [] | n :: _ => k c n end))
+        | _ => Err EArgs
+        end in
+      if fn_is name [112;111;115;105;116;105;111;110]%N then                     (* position *)
+        match args with [] => Ok (VNum (d_of_nat (position_of c))) | _ => Err EArgs end
+      else if fn_is name [108;97;115;116]%N then                                 (* last *)
+        match args with [] => Ok (VNum (d_of_nat (length (cx_list c)))) | _ => Err EArgs end
+      else if fn_is name [99;111;117;110;116]%N then                             (* count *)
+        match args with [a] => do l <- nodes_arg a; Ok (VNum (d_of_nat (length l))) | _ => Err EArgs end
+      else if fn_is name [110;111;116]%N then                                    (* not *)
+        match args with [a] => do b <- ev_bool c a; Ok (VBool (negb b)) | _ => Err EArgs end
+      else if fn_is name [116;114;117;101]%N then
+        match args with [] => Ok (VBool true) | _ => Err EArgs end
+      else if fn_is name [102;97;108;115;101]%N then
+        match args with [] => Ok (VBool false) | _ => Err EArgs end
+      else if fn_is name [98;111;111;108;101;97;110]%N then                      (* boolean *)
+        match args with [a] => do b <- ev_bool c a; Ok (VBool b) | _ => Err EArgs end
+      else if fn_is name [110;97;109;101]%N then ctx_or_first name_of          (* name *)
+      else if fn_is name [108;111;99;97;108;45;110;97;109;101]%N then ctx_or_first local_name_of
+      else if fn_is name [110;97;109;101;115;112;97;99;101;45;117;114;105]%N then ctx_or_first ns_uri_of
+      else if fn_is name [110;117;109;98;101;114]%N then                         (* number *)
+        match args with
+        | [] => Ok (VNum (string_to_number (node_string c (cx_node c))))
+        | [a] => do x <- ev_num c a; Ok (VNum x)
+        | _ => Err EArgs
+        end
+      else if fn_is name [102;108;111;111;114]%N then
+        match args with [a] => do x <- ev_num c a; Ok (VNum (d_floor x)) | _ => Err EArgs end
+      else if fn_is name [99;101;105;108;105;110;103]%N then
+        match args with [a] => do x <- ev_num c a; Ok (VNum (d_ceiling x)) | _ => Err EArgs end
+      else if fn_is name [114;111;117;110;100]%N then
+        match args with [a] => do x <- ev_num c a; Ok (VNum (d_round x)) | _ => Err EArgs end
+      else if fn_is name [115;116;114;105;110;103]%N then                        (* string *)
+        match args with
+        | [] => Ok (VStr (node_string c (cx_node c)))
+        | [a] => do s <- str_arg a; Ok (VStr s)
+        | _ => Err EArgs
+        end
+      else if fn_is name [115;117;109]%N then                                    (* sum *)
+        match args with [a] => do l <- nodes_arg a; Ok (VNum (sum_nodes c l)) | _ => Err EArgs end
+      else if fn_is name [115;116;114;105;110;103;45;108;101;110;103;116;104]%N then   (* string-length *)
+        match args with
+        | [] => Ok (VNum (d_of_nat (length (node_string c (cx_node c)))))
+        | [a] => do s <- str_arg a; Ok (VNum (d_of_nat (length s)))
+        | _ => Err EArgs
+        end
+      else if fn_is name [99;111;110;99;97;116]%N then                           (* concat *)
+        match args with
+        | _ :: _ :: _ =>
+            do ss <- fold_left (fun acc x => do q <- acc; do s <- str_arg x; Ok (q ++ s)) args (Ok []);
+            Ok (VStr ss)
+        | _ => Err EArgs
+        end
+      else if fn_is name [99;111;110;116;97;105;110;115]%N then                  (* contains *)
+        match args with
+        | [a; b] => do s <- str_arg a; do p <- str_arg b;
+                    Ok (VBool (match index_of_sub s p with Some _ => true | None => false end))
+        | _ => Err EArgs
+        end
+      else if fn_is name [115;116;97;114;116;115;45;119;105;116;104]%N then      (* starts-with *)
+        match args with
+        | [a; b] => do s <- str_arg a; do p <- str_arg b; Ok (VBool (starts_with s p))
+        | _ => Err EArgs
+        end
+      else if fn_is name [115;117;98;115;116;114;105;110;103;45;98;101;102;111;114;101]%N then   (* substring-before *)
+        match args with
+        | [a; b] => do s <- str_arg a; do p <- str_arg b;
+                    Ok (VStr (match s, p with
+                              | [], _ | _, [] => []
+                              | _, _ => match index_of_sub s p with Some i => firstn i s | None => [] end
+                              end))
+        | _ => Err EArgs
+        end
+      else if fn_is name [115;117;98;115;116;114;105;110;103;45;97;102;116;101;114]%N then       (* substring-after *)
+        match args with
+        | [a; b] => do s <- str_arg a; do p <- str_arg b;
+                    Ok (VStr (match s, p with
+                              | [], _ => []
+                              | _, [] => s
+                              | _, _ => match index_of_sub s p with Some i => skipn (i + length p) s | None => [] end
+                              end))
+        | _ => Err EArgs
+        end
+      else if fn_is name [115;117;98;115;116;114;105;110;103]%N then             (* substring *)
+        match args with
+        | [a; b] => do s <- str_arg a; do v2 <- ev c b; Ok (VStr (f_substring s (to_number c v2) None))
+        | [a; b; d3] => do s <- str_arg a; do v2 <- ev c b; do v3 <- ev c d3;
+                        Ok (VStr (f_substring s (to_number c v2) (Some (to_number c v3))))
+        | _ => Err EArgs
+        end
+      else if fn_is name [116;114;97;110;115;108;97;116;101]%N then              (* translate *)
+        match args with
+        | [a; b; d3] => do s <- str_arg a; do x <- str_arg b; do y <- str_arg d3; Ok (VStr (f_translate s x y))
+        | _ => Err EArgs
+        end
+      else if fn_is name [110;111;114;109;97;108;105;122;101;45;115;112;97;99;101]%N then       (* normalize-space *)
+        match args with
+        | [] => Ok (VStr (f_normalize_space (node_string c (cx_node c))))
+        | [a] => do s <- str_arg a; Ok (VStr (f_normalize_space s))
+        | _ => Err EArgs
+        end
+      else if fn_is name [108;97;110;103]%N then                                 (* lang *)
+        match args with [a] => do s <- str_arg a; Ok (VBool (f_lang c s)) | _ => Err EArgs end
+      else Err EUnknownFunction.
+End Funcs.
+
 Section Eval.
   Fixpoint eval (fuel : nat) (c : ctx) (e : expr) {struct fuel} : res value :=
     match fuel with
     | O => Err EFuel
     | S f =>
-      let num (x : expr) : res dbl :=                      (* getNumericOperand / executeMore(double&) *)
-        match x with
-        | ENumLit t => Ok (string_to_number t)
-        | _ => do v <- eval f c x; Ok (to_number c v)
-        end in
-      let boolean (x : expr) : res bool := do v <- eval f c x; Ok (to_boolean v) in
+      let num := ev_num (eval f) c in
+      let boolean := ev_bool (eval f) c in
       let arith (op : dbl -> dbl -> dbl) (a b : expr) : res value :=
         do x <- num a; do y <- num b; Ok (VNum (op x y)) in
       let cmp (op : cmpop) (a b : expr) : res value :=
         do x <- eval f c a; do y <- eval f c b; Ok (VBool (compare c op x y)) in
-      (* one predicate applied to the list [l] (XPath::predicates) *)
-      let apply_pred (l : list nat) (p : bool * expr) : res (list nat) :=
-        match l with
-        | [] => Ok []
-        | _ =>
-          match snd p with
-          | ENumLit t =>
-              match d_index (string_to_number t) (length l) with
-              | Some k => Ok (match nth_error l (k - 1) with Some n => [n] | None => [] end)
-              | None => Ok []
-              end
-          | pe =>
-              (fix go (rest : list nat) (i : nat) : res (list nat) :=
-                 match rest with
-                 | [] => Ok []
-                 | n :: r =>
-                     do v <- eval f (with_node c n l) pe;
-                     let keep :=
-                       negb (match v with VNum x => negb (d_eq (d_of_nat (S i)) x) | _ => false end)
-                       && to_boolean v in
-                     do r' <- go r (S i);
-                     Ok (if keep then n :: r' else r')
-                 end) l 0
-          end
-        end in
-      let apply_preds (l : list nat) (ps : list (bool * expr)) : res (list nat) :=
-        fold_left (fun acc p => do l' <- acc; apply_pred l' p) ps (Ok l) in
-      (* XPath::step for the remaining steps from each node of [sub] (already filtered) *)
-      let steps_from :=
-        fix steps_from (sfuel : nat) (sub : list nat) (reverse : bool) (rest : list step) {struct sfuel} : res (list nat) :=
-          match sfuel with
-          | O => Err EFuel
-          | S sf =>
-            match rest with
-            | [] => Ok (if reverse then rev sub else sub)
-            | (ax, t, ps) :: rest' =>
-                fold_left (fun acc n =>
-                  do q <- acc;
-                  do an <- axis_nodes c ax t n;
-                  let (l0, rv) := an in
-                  do l1 <- apply_preds l0 ps;
-                  do r <- steps_from sf l1 rv rest';
-                  Ok (merge_doc_order q r)) sub (Ok [])
-            end
-          end in
+      let apply_preds := apply_preds (eval f) c in
+      let steps_from := steps_from (eval f) c in
       match e with
       | EOr a b => do x <- boolean a; if x then Ok (VBool true) else do y <- boolean b; Ok (VBool y)
       | EAnd a b => do x <- boolean a; if x then do y <- boolean b; Ok (VBool y) else Ok (VBool false)
@@ -625,116 +759,7 @@ Section Eval.
               Ok (VNodes r)
           | _ => Err EUnknownAxis
           end
-      | EFunc name args =>
-          let str_arg (x : expr) : res str := do v <- eval f c x; Ok (to_string c v) in
-          let nodes_arg (x : expr) : res (list nat) := do v <- eval f c x; as_nodes v in
-          let ctx_or_first (k : ctx -> nat -> str) : res value :=
-            match args with
-            | [] => Ok (VStr (k c (cx_node c)))
-            | [a] => do l <- nodes_arg a; Ok (VStr (match l with [] => [] | n :: _ => k c n end))
-            | _ => Err EArgs
-            end in
-          if fn_is name [112;111;115;105;116;105;111;110]%N then                     (* position *)
-            match args with [] => Ok (VNum (d_of_nat (position_of c))) | _ => Err EArgs end
-          else if fn_is name [108;97;115;116]%N then                                 (* last *)
-            match args with [] => Ok (VNum (d_of_nat (length (cx_list c)))) | _ => Err EArgs end
-          else if fn_is name [99;111;117;110;116]%N then                             (* count *)
-            match args with [a] => do l <- nodes_arg a; Ok (VNum (d_of_nat (length l))) | _ => Err EArgs end
-          else if fn_is name [110;111;116]%N then                                    (* not *)
-            match args with [a] => do b <- boolean a; Ok (VBool (negb b)) | _ => Err EArgs end
-          else if fn_is name [116;114;117;101]%N then
-            match args with [] => Ok (VBool true) | _ => Err EArgs end
-          else if fn_is name [102;97;108;115;101]%N then
-            match args with [] => Ok (VBool false) | _ => Err EArgs end
-          else if fn_is name [98;111;111;108;101;97;110]%N then                      (* boolean *)
-            match args with [a] => do b <- boolean a; Ok (VBool b) | _ => Err EArgs end
-          else if fn_is name [110;97;109;101]%N then ctx_or_first name_of          (* name *)
-          else if fn_is name [108;111;99;97;108;45;110;97;109;101]%N then ctx_or_first local_name_of
-          else if fn_is name [110;97;109;101;115;112;97;99;101;45;117;114;105]%N then ctx_or_first ns_uri_of
-          else if fn_is name [110;117;109;98;101;114]%N then                         (* number *)
-            match args with
-            | [] => Ok (VNum (string_to_number (node_string c (cx_node c))))
-            | [a] => do x <- num a; Ok (VNum x)
-            | _ => Err EArgs
-            end
-          else if fn_is name [102;108;111;111;114]%N then
-            match args with [a] => do x <- num a; Ok (VNum (d_floor x)) | _ => Err EArgs end
-          else if fn_is name [99;101;105;108;105;110;103]%N then
-            match args with [a] => do x <- num a; Ok (VNum (d_ceiling x)) | _ => Err EArgs end
-          else if fn_is name [114;111;117;110;100]%N then
-            match args with [a] => do x <- num a; Ok (VNum (d_round x)) | _ => Err EArgs end
-          else if fn_is name [115;116;114;105;110;103]%N then                        (* string *)
-            match args with
-            | [] => Ok (VStr (node_string c (cx_node c)))
-            | [a] => do s <- str_arg a; Ok (VStr s)
-            | _ => Err EArgs
-            end
-          else if fn_is name [115;117;109]%N then                                    (* sum *)
-            match args with [a] => do l <- nodes_arg a; Ok (VNum (sum_nodes c l)) | _ => Err EArgs end
-          else if fn_is name [115;116;114;105;110;103;45;108;101;110;103;116;104]%N then   (* string-length *)
-            match args with
-            | [] => Ok (VNum (d_of_nat (length (node_string c (cx_node c)))))
-            | [a] => do s <- str_arg a; Ok (VNum (d_of_nat (length s)))
-            | _ => Err EArgs
-            end
-          else if fn_is name [99;111;110;99;97;116]%N then                           (* concat *)
-            match args with
-            | _ :: _ :: _ =>
-                do ss <- fold_left (fun acc x => do q <- acc; do s <- str_arg x; Ok (q ++ s)) args (Ok []);
-                Ok (VStr ss)
-            | _ => Err EArgs
-            end
-          else if fn_is name [99;111;110;116;97;105;110;115]%N then                  (* contains *)
-            match args with
-            | [a; b] => do s <- str_arg a; do p <- str_arg b;
-                        Ok (VBool (match index_of_sub s p with Some _ => true | None => false end))
-            | _ => Err EArgs
-            end
-          else if fn_is name [115;116;97;114;116;115;45;119;105;116;104]%N then      (* starts-with *)
-            match args with
-            | [a; b] => do s <- str_arg a; do p <- str_arg b; Ok (VBool (starts_with s p))
-            | _ => Err EArgs
-            end
-          else if fn_is name [115;117;98;115;116;114;105;110;103;45;98;101;102;111;114;101]%N then   (* substring-before *)
-            match args with
-            | [a; b] => do s <- str_arg a; do p <- str_arg b;
-                        Ok (VStr (match s, p with
-                                  | [], _ | _, [] => []
-                                  | _, _ => match index_of_sub s p with Some i => firstn i s | None => [] end
-                                  end))
-            | _ => Err EArgs
-            end
-          else if fn_is name [115;117;98;115;116;114;105;110;103;45;97;102;116;101;114]%N then       (* substring-after *)
-            match args with
-            | [a; b] => do s <- str_arg a; do p <- str_arg b;
-                        Ok (VStr (match s, p with
-                                  | [], _ => []
-                                  | _, [] => s
-                                  | _, _ => match index_of_sub s p with Some i => skipn (i + length p) s | None => [] end
-                                  end))
-            | _ => Err EArgs
-            end
-          else if fn_is name [115;117;98;115;116;114;105;110;103]%N then             (* substring *)
-            match args with
-            | [a; b] => do s <- str_arg a; do v2 <- eval f c b; Ok (VStr (f_substring s (to_number c v2) None))
-            | [a; b; d3] => do s <- str_arg a; do v2 <- eval f c b; do v3 <- eval f c d3;
-                            Ok (VStr (f_substring s (to_number c v2) (Some (to_number c v3))))
-            | _ => Err EArgs
-            end
-          else if fn_is name [116;114;97;110;115;108;97;116;101]%N then              (* translate *)
-            match args with
-            | [a; b; d3] => do s <- str_arg a; do x <- str_arg b; do y <- str_arg d3; Ok (VStr (f_translate s x y))
-            | _ => Err EArgs
-            end
-          else if fn_is name [110;111;114;109;97;108;105;122;101;45;115;112;97;99;101]%N then       (* normalize-space *)
-            match args with
-            | [] => Ok (VStr (f_normalize_space (node_string c (cx_node c))))
-            | [a] => do s <- str_arg a; Ok (VStr (f_normalize_space s))
-            | _ => Err EArgs
-            end
-          else if fn_is name [108;97;110;103]%N then                                 (* lang *)
-            match args with [a] => do s <- str_arg a; Ok (VBool (f_lang c s)) | _ => Err EArgs end
-          else Err EUnknownFunction
+      | EFunc name args => call_function (eval f) c name args
       end
     end.
 End Eval.
